@@ -40,6 +40,58 @@ SIM_BEHAVIOURS = 6000     # per worker
 NSHARDS = 12
 
 
+def flush_trees(ctx):
+    """Carry-through of a flush through destination combinators: spec/Flush.tla (M) and its
+    cases replayed on the real And/Option/Box/Arc/&/erased/wrap/Runtime (G)."""
+    r = ctx.tlc("Flush", "Flush_quick.cfg" if ctx.quick else "Flush_thorough.cfg", workers=4,
+                timeout=1800, label="flush")
+    if r.violated:
+        ctx.spec_violation(r, "Flush.tla: %s violated by the transcription of And::blocking_flush" % r.violated)
+        return
+    ctx.require_actions(r, ["DoFlush"], "Flush")
+    cases = os.path.join(ctx.out, "flush-cases.ndjson")
+    n = vlib.extract_printed(r.out_path, "REPLAY", cases)
+    os.remove(r.out_path)
+    bindir = ctx.cargo_build("vh_core", bins=["c07_flushtree"])
+    rep = os.path.join(ctx.out, "flush-report.json")
+    ctx.run_harness(os.path.join(bindir, "c07_flushtree"), [cases, rep])
+    rj = json.load(open(rep))
+    ctx.cov["traces_validated_against_impl"] += rj["checks"]
+    ctx.cov["flush_tree_cases"] = n
+    if rj["extra"].get("model_budget_differs"):
+        ctx.cov["drift"].append({"config": "flush", "what": ["time budgets differ from the halving design (statement only bounds their sum)"]})
+    for m in rj["mismatches"]:
+        ctx.violation("C07 flush through combinators: %s: %s" % (m["what"], json.dumps(m["detail"])[:300]), m,
+                      signature="flushtree " + m["what"])
+    with open(cases) as f:
+        for _ in range(min(n - 1, 5000)):
+            f.readline()
+        ctx.sample({"flush_tree_case": json.loads(f.readline())})
+
+
+def file_e2e(ctx):
+    """Carry-through to rolling files: a real FileSet on the real filesystem, emitting threads and
+    flushes at seeded moments; the recorded trace is validated by TLC against spec/SinkFlush.tla."""
+    bindir = ctx.cargo_build("vh_file", bins=["c07_file_e2e"])
+    scratch = os.path.join(ctx.out, "e2e")
+    os.makedirs(scratch, exist_ok=True)
+    trace = os.path.join(ctx.out, "sinkflush.ndjson")
+    rounds = 60 if ctx.quick else 600
+    ctx.run_harness(os.path.join(bindir, "c07_file_e2e"), [scratch, trace, rounds], timeout=1200)
+    r = ctx.validate_trace("SinkFlush", "SinkFlush.cfg", trace, label="tv-sinkflush")
+    ctx.cov["traces_validated_against_impl"] += rounds
+    ctx.cov["file_e2e_rounds"] = rounds
+    if r.violated:
+        rej = list(vlib.iter_printed_raw(r.out_path, "REJECTED"))
+        n = int(rej[0].split(",")[0]) if rej else 0
+        lines = open(trace).read().splitlines()
+        start = max(i for i in range(n) if '"Reset"' in lines[i]) if n else 0
+        ctx.violation("C07 carry-through to rolling files: SinkFlush.tla rejects event %d %s" % (
+            n - start, lines[n - 1][:300] if n else ""),
+            {"kind": "sinkflush-trace", "trace": [json.loads(x) for x in lines[start:n]]},
+            signature="sinkflush")
+
+
 def run(ctx, prop):
     other = []          # violations that belong to a sibling property (reported by its check)
     drift = ctx.cov["drift"]
@@ -49,6 +101,11 @@ def run(ctx, prop):
             ctx.violation(what, replay, signature=sig)
         else:
             other.append("%s: %s" % (p, what[:200]))
+
+    # ------------------------------------------------------------------ C07: flush through combinators
+    if prop == "C07" and ctx.replay_case() is None:
+        flush_trees(ctx)
+        file_e2e(ctx)
 
     # ------------------------------------------------------------------ M: liveness (C08)
     if prop == "C08" or not ctx.quick:
@@ -153,6 +210,14 @@ def run(ctx, prop):
                 t["hang"] = t.get("hang", False)
                 t.setdefault("what", [])
                 all_traces.append(t)
+
+    # too many divergent replays (a broken tree): keep the longest and an even sample of the rest
+    div = [t for t in all_traces if t["divergent"] and not t["hang"]]
+    if len(div) > 3000:
+        div.sort(key=lambda t: -len(t["trace"]))
+        keep = set(id(t) for t in div[:1500]) | set(id(t) for t in div[1500::max(1, (len(div) - 1500) // 1500)])
+        all_traces = [t for t in all_traces if not t["divergent"] or t["hang"] or id(t) in keep]
+        ctx.cov["divergent_replays_not_validated"] = len(div) - len(keep)
 
     # ------------------------------------------------------------------ hangs (C08)
     for t in all_traces:
